@@ -123,7 +123,7 @@ Fixpoint javadoc_fold (lines : list bytes) (tags : list jtag) (author version : 
   end.
 
 Definition parse_javadoc (comment : bytes) : javadoc :=
-  let lines := split_on nl comment in
+  let lines := split_on nl (trim_suffix "*/" (trim_prefix "/*" comment)) in
   let '(tags, author, version) := javadoc_fold lines [] [] [] in
   {| d_tags := tags; d_author := author; d_version := version;
      d_nlines := length lines; d_commented := comment |}.
@@ -144,6 +144,8 @@ Definition stmt_id (prefix : bytes) (n : cst) (file : bytes) : bytes :=
 (* GenerateMethodID pre-image *)
 Definition method_id_pre (name : bytes) (params : list bytes) (file : bytes) : bytes :=
   name ++ "-" ++ fmt_strs params ++ "-" ++ file.
+
+Definition position_key (n : cst) : list bytes := [dec (c_row n + 1); dec (c_col n + 1)].
 
 (* extractMethodName *)
 Definition extract_method_name (src : bytes) (n : cst) (file : bytes) : result (bytes * bytes) :=
@@ -176,14 +178,6 @@ Definition extract_method_name (src : bytes) (n : cst) (file : bytes) : result (
 Definition opt_content (src : bytes) (o : option cst) : option bytes :=
   match o with Some c => Some (content src c) | None => None end.
 
-Definition stmt_node (prefix ty : bytes) (src : bytes) (n : cst) (file : bytes) (s : stmt) : node :=
-  let b := blank (stmt_id prefix n file) ty ty (content src n) (c_row n + 1) file (is_java_source_file file) in
-  {| n_idpre := n_idpre b; n_type := n_type b; n_name := n_name b; n_snippet := n_snippet b;
-     n_line := n_line b; n_ext := true; n_mod := []; n_ret := []; n_argt := []; n_argv := [];
-     n_super := []; n_iface := []; n_dtype := []; n_scope := []; n_value := []; n_access := false;
-     n_file := file; n_isjava := n_isjava b; n_throws := []; n_annot := []; n_doc := None;
-     n_bin := None; n_new := None; n_stmt := Some s |}.
-
 Definition last_ident_label (src : bytes) (n : cst) : bytes :=
   fold_left (fun acc ch => if is_ty "identifier" ch then content src ch else acc) (c_kids n) [].
 
@@ -213,177 +207,209 @@ Definition declarator (src : bytes) (ch : cst) (name0 value0 : bytes) : bytes * 
   let '(name2, value2) := go (c_kids ch) name1 value0 in
   (name2, remove_byte nl (remove_byte x20 value2)).
 
-(* the switch of buildGraphFromAST for one CST node: new graph and new currentContext *)
-Definition visit_here (src file : bytes) (prev : option cst) (n : cst) (ctx : option node) (g : graph)
-  : result (graph * option node) :=
+(* a node with every optional attribute empty *)
+Definition mk_node (idpre ty name snip : bytes) (line : N) (ext : bool) (file : bytes) (isj : bool) : node :=
+  {| n_idpre := idpre; n_type := ty; n_name := name; n_snippet := snip; n_line := line; n_ext := ext;
+     n_mod := []; n_ret := []; n_argt := []; n_argv := []; n_super := []; n_iface := []; n_dtype := [];
+     n_scope := []; n_value := []; n_access := false; n_file := file; n_isjava := isj; n_throws := [];
+     n_annot := []; n_doc := None; n_bin := None; n_new := None; n_stmt := None |}.
+
+Definition with_stmt (s : stmt) (b : node) : node :=
+  {| n_idpre := n_idpre b; n_type := n_type b; n_name := n_name b; n_snippet := n_snippet b;
+     n_line := n_line b; n_ext := n_ext b; n_mod := n_mod b; n_ret := n_ret b; n_argt := n_argt b;
+     n_argv := n_argv b; n_super := n_super b; n_iface := n_iface b; n_dtype := n_dtype b;
+     n_scope := n_scope b; n_value := n_value b; n_access := n_access b; n_file := n_file b;
+     n_isjava := n_isjava b; n_throws := n_throws b; n_annot := n_annot b; n_doc := n_doc b;
+     n_bin := n_bin b; n_new := n_new b; n_stmt := Some s |}.
+
+Definition stmt_entity (prefix ty : bytes) (src : bytes) (n : cst) (file : bytes) (s : stmt) : node :=
+  with_stmt s (mk_node (stmt_id prefix n file) ty ty (content src n) (c_row n + 1) true file
+                 (is_java_source_file file)).
+
+(* method_declaration attributes gathered by the loop over the children *)
+Definition method_attrs (src : bytes) (n : cst)
+  : bytes * list bytes * list bytes * list bytes * list bytes :=
+  fold_left (fun '(mods, throws, argt, argv, annots) ch =>
+    if is_ty "throws" ch then
+      (mods, throws ++ List.map (content src) (filter (is_ty "type_identifier") (named_kids ch)), argt, argv, annots)
+    else if is_ty "modifiers" ch then
+      (content src ch, throws, argt, argv, annots ++ marker_annotations src ch)
+    else if is_ty "formal_parameters" ch then
+      fold_left (fun '(mods, throws, argt, argv, annots) p =>
+        if is_ty "formal_parameter" p then
+          match child_by_field p "type", child_by_field p "name" with
+          | Some pt, Some pn => (mods, throws, argt ++ [content src pt], argv ++ [content src pn], annots)
+          | _, _ => (mods, throws, argt, argv, annots)
+          end
+        else (mods, throws, argt, argv, annots)) (named_kids ch) (mods, throws, argt, argv, annots)
+    else (mods, throws, argt, argv, annots))
+    (c_kids n) ([], [], [], [], []).
+
+Definition call_args (src : bytes) (n : cst) : list bytes :=
+  flat_map (fun ch =>
+    if is_ty "argument_list" ch then
+      List.map (fun a =>
+        if is_ty "string_literal" a
+        then trim_suffix """" (trim_prefix """" (content src a))
+        else content src a) (named_kids ch)
+    else []) (c_kids n).
+
+Definition class_attrs (src : bytes) (n : cst) : bytes * list bytes * bytes * list bytes :=
+  fold_left (fun '(mods, annots, super, ifaces) ch =>
+    let '(mods1, annots1) := if is_ty "modifiers" ch
+                             then (content src ch, annots ++ marker_annotations src ch)
+                             else (mods, annots) in
+    let super1 := if is_ty "superclass" ch
+                  then fold_left (fun s k => if is_ty "type_identifier" k then content src k else s) (c_kids ch) super
+                  else super in
+    let ifaces1 := if is_ty "super_interfaces" ch
+                   then ifaces ++ flat_map (fun tl => List.map (content src) (named_kids tl)) (c_kids ch)
+                   else ifaces in
+    (mods1, annots1, super1, ifaces1)) (c_kids n) ([], [], [], []).
+
+Definition var_attrs (src : bytes) (n : cst) : bytes * bytes * bytes * bytes :=
+  fold_left (fun '(name, vty, vmod, value) ch =>
+    let '(name1, value1) := if is_ty "variable_declarator" ch
+                            then declarator src ch name value else (name, value) in
+    let vmod1 := if is_ty "modifiers" ch then content src ch else vmod in
+    let vty1 := if contains "type" (c_ty ch) then content src ch else vty in
+    (name1, vty1, vmod1, value1)) (c_kids n) ([], [], [], []).
+
+Definition new_attrs (src : bytes) (n : cst) : bytes * list (bytes * bytes) :=
+  fold_left (fun '(cname, args) ch =>
+    let cname1 := if is_ty "type_identifier" ch || is_ty "scoped_type_identifier" ch
+                  then content src ch else cname in
+    let args1 := if is_ty "argument_list" ch
+                 then List.map (fun a => (c_ty a, content src a))
+                        (filter (fun a => negb (punct_stop (c_ty a))) (c_kids ch))
+                 else args in
+    (cname1, args1)) (c_kids n) ([], []).
+
+(* The switch of visitAST for one CST node: the entities it adds to the graph, in order. *)
+Definition entities_of (src file : bytes) (prev : option cst) (n : cst) : result (list node) :=
   let isj := is_java_source_file file in
   let line := (c_row n + 1)%N in
   let snip := content src n in
   let ty := c_ty n in
   if bytes_eqb ty "block" then
-    Ok (add_node (stmt_node "block" "BlockStmt" src n file (SBlock (List.map (content src) (c_kids n)))) g, ctx)
+    Ok [stmt_entity "block" "BlockStmt" src n file (SBlock (List.map (content src) (c_kids n)))]
   else if bytes_eqb ty "return_statement" then
-    Ok (add_node (stmt_node "return" "ReturnStmt" src n file (SReturn (opt_content src (child n 1)))) g, ctx)
+    let r := match child n 1 with
+             | Some c => if c_named c then Some (content src c) else None
+             | None => None end in
+    Ok [stmt_entity "return" "ReturnStmt" src n file (SReturn r)]
   else if bytes_eqb ty "assert_statement" then
     do c1 <- deref "ParseAssertStatement:Child(1)" (child n 1);
     let msg := match child n 3 with
                | Some c3 => if is_ty "string_literal" c3 then Some (content src c3) else None
                | None => None end in
-    Ok (add_node (stmt_node "assert" "AssertStmt" src n file (SAssert (content src c1) msg)) g, ctx)
+    Ok [stmt_entity "assert" "AssertStmt" src n file (SAssert (content src c1) msg)]
   else if bytes_eqb ty "yield_statement" then
     do c1 <- deref "ParseYieldStatement:Child(1)" (child n 1);
-    Ok (add_node (stmt_node "yield" "YieldStmt" src n file (SYield (content src c1))) g, ctx)
+    Ok [stmt_entity "yield" "YieldStmt" src n file (SYield (content src c1))]
   else if bytes_eqb ty "break_statement" then
-    Ok (add_node (stmt_node "breakstmt" "BreakStmt" src n file (SBreak (last_ident_label src n))) g, ctx)
+    Ok [stmt_entity "breakstmt" "BreakStmt" src n file (SBreak (last_ident_label src n))]
   else if bytes_eqb ty "continue_statement" then
-    Ok (add_node (stmt_node "continuestmt" "ContinueStmt" src n file (SContinue (last_ident_label src n))) g, ctx)
+    Ok [stmt_entity "continuestmt" "ContinueStmt" src n file (SContinue (last_ident_label src n))]
   else if bytes_eqb ty "if_statement" then
     let thn := match child n 2 with Some c => content src c | None => [] end in
     let els := match child n 4 with Some c => content src c | None => [] end in
-    Ok (add_node (stmt_node "ifstmt" "IfStmt" src n file (SIf (opt_content src (child n 1)) thn els)) g, ctx)
+    Ok [stmt_entity "ifstmt" "IfStmt" src n file (SIf (opt_content src (child n 1)) thn els)]
   else if bytes_eqb ty "while_statement" then
-    Ok (add_node (stmt_node "while_stmt" "WhileStmt" src n file (SWhile (opt_content src (child n 1)))) g, ctx)
+    Ok [stmt_entity "while_stmt" "WhileStmt" src n file (SWhile (opt_content src (child n 1)))]
   else if bytes_eqb ty "do_statement" then
-    Ok (add_node (stmt_node "dowhile_stmt" "DoStmt" src n file (SDo (opt_content src (child n 2)))) g, ctx)
+    Ok [stmt_entity "dowhile_stmt" "DoStmt" src n file (SDo (opt_content src (child_by_field n "condition")))]
   else if bytes_eqb ty "for_statement" then
-    Ok (add_node (stmt_node "for_stmt" "ForStmt" src n file
-                   (SFor (opt_content src (child_by_field n "init"))
-                         (opt_content src (child_by_field n "condition"))
-                         (opt_content src (child_by_field n "increment")))) g, ctx)
+    Ok [stmt_entity "for_stmt" "ForStmt" src n file
+          (SFor (opt_content src (child_by_field n "init"))
+                (opt_content src (child_by_field n "condition"))
+                (opt_content src (child_by_field n "update")))]
   else if bytes_eqb ty "binary_expression" then
     do l <- deref "binary_expression:left" (child_by_field n "left");
     do r <- deref "binary_expression:right" (child_by_field n "right");
     do o <- deref "binary_expression:operator" (child_by_field n "operator");
     let op := c_ty o in
-    let payload := Some (op, content src l, content src r) in
     let mk (idp t : bytes) : node :=
-      let b := blank (idp ++ snip) t snip snip line file isj in
+      let b := mk_node (idp ++ file ++ [x00] ++ snip) t snip snip line false file isj in
       {| n_idpre := n_idpre b; n_type := t; n_name := snip; n_snippet := snip; n_line := line;
          n_ext := false; n_mod := []; n_ret := []; n_argt := []; n_argv := []; n_super := [];
          n_iface := []; n_dtype := []; n_scope := []; n_value := []; n_access := false;
          n_file := file; n_isjava := isj; n_throws := []; n_annot := []; n_doc := None;
-         n_bin := payload; n_new := None; n_stmt := None |} in
-    let g1 := match lookup_binop op with
-              | Some (idp, t) => add_node (mk idp t) g
-              | None => g end in
-    let gen := mk "binary_expression" "binary_expression" in
-    Ok (add_node gen g1, Some gen)
+         n_bin := Some (op, content src l, content src r); n_new := None; n_stmt := None |} in
+    Ok (match lookup_binop op with
+        | Some (idp, t) => [mk idp t]
+        | None => [] end ++ [mk "binary_expression" "binary_expression"])
   else if bytes_eqb ty "method_declaration" then
     let doc := decl_javadoc src prev in
     do '(name, idpre) <- extract_method_name src n file;
-    do '(mods, ret, throws, argt, argv, annots) <-
-      fold_left (fun acc ch =>
-        do '(mods, ret, throws, argt, argv, annots) <- acc;
-        if is_ty "throws" ch then
-          Ok (mods, ret, throws ++ List.map (content src) (filter (is_ty "type_identifier") (named_kids ch)), argt, argv, annots)
-        else if is_ty "modifiers" ch then
-          Ok (content src ch, ret, throws, argt, argv, annots ++ marker_annotations src ch)
-        else if is_ty "void_type" ch || is_ty "type_identifier" ch then
-          Ok (mods, content src ch, throws, argt, argv, annots)
-        else if is_ty "formal_parameters" ch then
-          fold_left (fun acc2 p =>
-            do '(mods, ret, throws, argt, argv, annots) <- acc2;
-            if is_ty "formal_parameter" p then
-              do p0 <- deref "method_declaration:param.Child(0)" (child p 0);
-              do p1 <- deref "method_declaration:param.Child(1)" (child p 1);
-              Ok (mods, ret, throws, argt ++ [content src p0], argv ++ [content src p1], annots)
-            else Ok (mods, ret, throws, argt, argv, annots)) (named_kids ch)
-            (Ok (mods, ret, throws, argt, argv, annots))
-        else Ok (mods, ret, throws, argt, argv, annots))
-        (c_kids n) (Ok ([], [], [], [], [], []));
-    let m := {| n_idpre := idpre; n_type := "method_declaration"; n_name := name; n_snippet := snip;
-                n_line := line; n_ext := false; n_mod := extract_visibility mods; n_ret := ret;
-                n_argt := argt; n_argv := argv; n_super := []; n_iface := []; n_dtype := [];
-                n_scope := []; n_value := []; n_access := false; n_file := file; n_isjava := isj;
-                n_throws := throws; n_annot := annots; n_doc := doc; n_bin := None; n_new := None;
-                n_stmt := None |} in
-    Ok (add_node m g, Some m)
+    let ret := match child_by_field n "type" with Some t => content src t | None => [] end in
+    let '(mods, throws, argt, argv, annots) := method_attrs src n in
+    Ok [{| n_idpre := idpre; n_type := "method_declaration"; n_name := name; n_snippet := snip;
+           n_line := line; n_ext := false; n_mod := extract_visibility mods; n_ret := ret;
+           n_argt := argt; n_argv := argv; n_super := []; n_iface := []; n_dtype := [];
+           n_scope := []; n_value := []; n_access := false; n_file := file; n_isjava := isj;
+           n_throws := throws; n_annot := annots; n_doc := doc; n_bin := None; n_new := None;
+           n_stmt := None |}]
   else if bytes_eqb ty "method_invocation" then
     do '(name, idpre) <- extract_method_name src n file;
-    let args := flat_map (fun ch =>
-                  if is_ty "argument_list" ch then
-                    List.map (fun a =>
-                      if is_ty "string_literal" a
-                      then trim_suffix """" (trim_prefix """" (content src a))
-                      else content src a) (c_kids ch)
-                  else []) (c_kids n) in
-    let b := blank idpre "method_invocation" name snip line file isj in
-    let m := {| n_idpre := idpre; n_type := "method_invocation"; n_name := name; n_snippet := snip;
-                n_line := line; n_ext := true; n_mod := []; n_ret := []; n_argt := []; n_argv := args;
-                n_super := []; n_iface := []; n_dtype := []; n_scope := []; n_value := [];
-                n_access := false; n_file := file; n_isjava := isj; n_throws := []; n_annot := [];
-                n_doc := None; n_bin := None; n_new := None; n_stmt := None |} in
-    let g1 := add_node m g in
-    Ok (match ctx with Some c => add_edge c m g1 | None => g1 end, ctx)
+    Ok [{| n_idpre := idpre; n_type := "method_invocation"; n_name := name; n_snippet := snip;
+           n_line := line; n_ext := true; n_mod := []; n_ret := []; n_argt := []; n_argv := call_args src n;
+           n_super := []; n_iface := []; n_dtype := []; n_scope := []; n_value := [];
+           n_access := false; n_file := file; n_isjava := isj; n_throws := []; n_annot := [];
+           n_doc := None; n_bin := None; n_new := None; n_stmt := None |}]
   else if bytes_eqb ty "class_declaration" then
     let doc := decl_javadoc src prev in
     do nm <- deref "class_declaration:name" (child_by_field n "name");
     let name := content src nm in
-    let '(mods, annots, super, ifaces) :=
-      fold_left (fun '(mods, annots, super, ifaces) ch =>
-        let '(mods1, annots1) := if is_ty "modifiers" ch
-                                 then (content src ch, annots ++ marker_annotations src ch)
-                                 else (mods, annots) in
-        let super1 := if is_ty "superclass" ch
-                      then fold_left (fun s k => if is_ty "type_identifier" k then content src k else s) (c_kids ch) super
-                      else super in
-        let ifaces1 := if is_ty "super_interfaces" ch
-                       then ifaces ++ flat_map (fun tl => List.map (content src) (c_kids tl)) (c_kids ch)
-                       else ifaces in
-        (mods1, annots1, super1, ifaces1)) (c_kids n) ([], [], [], []) in
-    let c := {| n_idpre := method_id_pre name [] file; n_type := "class_declaration"; n_name := name;
-                n_snippet := snip; n_line := line; n_ext := false; n_mod := extract_visibility mods;
-                n_ret := []; n_argt := []; n_argv := []; n_super := super; n_iface := ifaces;
-                n_dtype := []; n_scope := []; n_value := []; n_access := false; n_file := file;
-                n_isjava := isj; n_throws := []; n_annot := annots; n_doc := doc; n_bin := None;
-                n_new := None; n_stmt := None |} in
-    Ok (add_node c g, ctx)
+    let '(mods, annots, super, ifaces) := class_attrs src n in
+    Ok [{| n_idpre := method_id_pre name (position_key n) file; n_type := "class_declaration"; n_name := name;
+           n_snippet := snip; n_line := line; n_ext := false; n_mod := extract_visibility mods;
+           n_ret := []; n_argt := []; n_argv := []; n_super := super; n_iface := ifaces;
+           n_dtype := []; n_scope := []; n_value := []; n_access := false; n_file := file;
+           n_isjava := isj; n_throws := []; n_annot := annots; n_doc := doc; n_bin := None;
+           n_new := None; n_stmt := None |}]
   else if bytes_eqb ty "block_comment" then
     if has_prefix "/*" snip then
-      let c := {| n_idpre := method_id_pre snip [] file; n_type := "block_comment"; n_name := [];
-                  n_snippet := snip; n_line := line; n_ext := false; n_mod := []; n_ret := [];
-                  n_argt := []; n_argv := []; n_super := []; n_iface := []; n_dtype := [];
-                  n_scope := []; n_value := []; n_access := false; n_file := file; n_isjava := isj;
-                  n_throws := []; n_annot := []; n_doc := Some (parse_javadoc snip); n_bin := None;
-                  n_new := None; n_stmt := None |} in
-      Ok (add_node c g, ctx)
-    else Ok (g, ctx)
+      Ok [{| n_idpre := method_id_pre snip (position_key n) file; n_type := "block_comment"; n_name := [];
+             n_snippet := snip; n_line := line; n_ext := false; n_mod := []; n_ret := [];
+             n_argt := []; n_argv := []; n_super := []; n_iface := []; n_dtype := [];
+             n_scope := []; n_value := []; n_access := false; n_file := file; n_isjava := isj;
+             n_throws := []; n_annot := []; n_doc := Some (parse_javadoc snip); n_bin := None;
+             n_new := None; n_stmt := None |}]
+    else Ok []
   else if bytes_eqb ty "local_variable_declaration" || bytes_eqb ty "field_declaration" then
-    let '(name, vty, vmod, value) :=
-      fold_left (fun '(name, vty, vmod, value) ch =>
-        let '(name1, value1) := if is_ty "variable_declarator" ch
-                                then declarator src ch name value else (name, value) in
-        let vmod1 := if is_ty "modifiers" ch then content src ch else vmod in
-        let vty1 := if contains "type" (c_ty ch) then content src ch else vty in
-        (name1, vty1, vmod1, value1)) (c_kids n) ([], [], [], []) in
+    let '(name, vty, vmod, value) := var_attrs src n in
     let scope : bytes := if bytes_eqb ty "local_variable_declaration" then "local" else "field" in
-    let v := {| n_idpre := method_id_pre name [] file; n_type := "variable_declaration"; n_name := name;
-                n_snippet := snip; n_line := line; n_ext := false; n_mod := extract_visibility vmod;
-                n_ret := []; n_argt := []; n_argv := []; n_super := []; n_iface := []; n_dtype := vty;
-                n_scope := scope; n_value := value; n_access := false; n_file := file; n_isjava := isj;
-                n_throws := []; n_annot := []; n_doc := None; n_bin := None; n_new := None;
-                n_stmt := None |} in
-    Ok (add_node v g, ctx)
+    Ok [{| n_idpre := method_id_pre name [] file; n_type := "variable_declaration"; n_name := name;
+           n_snippet := snip; n_line := line; n_ext := false; n_mod := extract_visibility vmod;
+           n_ret := []; n_argt := []; n_argv := []; n_super := []; n_iface := []; n_dtype := vty;
+           n_scope := scope; n_value := value; n_access := false; n_file := file; n_isjava := isj;
+           n_throws := []; n_annot := []; n_doc := None; n_bin := None; n_new := None;
+           n_stmt := None |}]
   else if bytes_eqb ty "object_creation_expression" then
-    let '(cname, args) :=
-      fold_left (fun '(cname, args) ch =>
-        let cname1 := if is_ty "type_identifier" ch || is_ty "scoped_type_identifier" ch
-                      then content src ch else cname in
-        let args1 := if is_ty "argument_list" ch
-                     then List.map (fun a => (c_ty a, content src a))
-                            (filter (fun a => negb (punct_stop (c_ty a))) (c_kids ch))
-                     else args in
-        (cname1, args1)) (c_kids n) ([], []) in
-    let o := {| n_idpre := method_id_pre cname [dec line] file; n_type := "ClassInstanceExpr";
-                n_name := cname; n_snippet := snip; n_line := line; n_ext := false; n_mod := [];
-                n_ret := []; n_argt := []; n_argv := []; n_super := []; n_iface := []; n_dtype := [];
-                n_scope := []; n_value := []; n_access := false; n_file := file; n_isjava := isj;
-                n_throws := []; n_annot := []; n_doc := None; n_bin := None;
-                n_new := Some (cname, args); n_stmt := None |} in
-    Ok (add_node o g, ctx)
-  else Ok (g, ctx).
+    let '(cname, args) := new_attrs src n in
+    Ok [{| n_idpre := method_id_pre cname (position_key n) file; n_type := "ClassInstanceExpr";
+           n_name := cname; n_snippet := snip; n_line := line; n_ext := false; n_mod := [];
+           n_ret := []; n_argt := []; n_argv := []; n_super := []; n_iface := []; n_dtype := [];
+           n_scope := []; n_value := []; n_access := false; n_file := file; n_isjava := isj;
+           n_throws := []; n_annot := []; n_doc := None; n_bin := None;
+           n_new := Some (cname, args); n_stmt := None |}]
+  else Ok [].
 
-(* the recursive visitor (without the declaration/call matching pass) *)
+Definition add_nodes (ns : list node) (g : graph) : graph := fold_left (fun g e => add_node e g) ns g.
+
+(* graph and currentContext after the switch for one CST node *)
+Definition visit_here (src file : bytes) (prev : option cst) (n : cst) (ctx : option node) (g : graph)
+  : result (graph * option node) :=
+  do ns <- entities_of src file prev n;
+  let g1 := add_nodes ns g in
+  if is_ty "method_invocation" n then
+    Ok (match ctx, ns with Some c, [m] => add_edge c m g1 | _, _ => g1 end, ctx)
+  else if is_ty "binary_expression" n || is_ty "method_declaration" n then
+    Ok (g1, match rev ns with e :: _ => Some e | [] => ctx end)
+  else Ok (g1, ctx).
+
+(* the recursive visitor visitAST *)
 Fixpoint visit (src file : bytes) (prev : option cst) (n : cst) (ctx : option node) (g : graph)
   : result graph :=
   do '(g1, ctx1) <- visit_here src file prev n ctx g;
@@ -392,6 +418,16 @@ Fixpoint visit (src file : bytes) (prev : option cst) (n : cst) (ctx : option no
      | [] => Ok g
      | k :: r => do g' <- visit src file prev k ctx1 g; go r (Some k) g'
      end) (c_kids n) None g1.
+
+(* every entity the traversal creates, in traversal order, before the map merges equal identities *)
+Fixpoint census (src file : bytes) (prev : option cst) (n : cst) : result (list node) :=
+  do ns <- entities_of src file prev n;
+  do rest <- (fix go (ks : list cst) (prev : option cst) : result (list node) :=
+                match ks with
+                | [] => Ok []
+                | k :: r => do a <- census src file prev k; do b <- go r (Some k); Ok (a ++ b)
+                end) (c_kids n) None;
+  Ok (ns ++ rest).
 
 (* the matching pass: a method declaration is "accessed" when some invocation in the graph has the
    same name and as many arguments as the declaration has parameter types *)
